@@ -188,7 +188,15 @@ def check_value(ref, kind):
                 ok = z3.BoolVal(False)
                 if isinstance(ret.discr, int) and ex.adt_variants(ret.ty)[ret.discr][0] == "Bool":
                     ok = ret.fields[ret.discr][0].b == exp[1]
-            V.check(ex, f"result is {exp[0]}", ok, assumed, detail=lambda: f"expected {exp}; returned {ret!r}; obj={ex.notes.get('obj')!r} idx={ex.notes.get('idx')!r}", scenario=scen)
+            def pref():
+                # among the counterexamples prefer operand kinds that have a concrete stand-in
+                out = []
+                for key in ("lhs", "idx"):
+                    v = ex.notes.get(key)
+                    if isinstance(v, VAdt) and not isinstance(v.discr, int):
+                        out.append(is_variant(ex, v, "Int"))
+                return out
+            V.check(ex, f"result is {exp[0]}", ok, assumed, detail=lambda: f"expected {exp}; returned {ret!r}; obj={ex.notes.get('obj')!r} idx={ex.notes.get('idx')!r}", scenario=scen, prefer=pref)
     return check
 
 
